@@ -94,6 +94,126 @@ flow:
           at: end
 `
 
+// a gauge of the UserDefinedMetrics processor in front of the limiter: every
+// transaction appends to / updates the processor's callback values
+const udmProcessorYAML = `  Udm:
+    processor: UserDefinedMetrics
+    parameters:
+      - key: metric_name
+        value: verif_c18_gauge
+      - key: metric_type
+        value: gauge
+`
+
+// flowFor: the Limiter flow; with udm the request direction runs start -> Udm -> Lim
+func flowFor(udm bool) string {
+	if !udm {
+		return flowYAML
+	}
+	f := strings.Replace(flowYAML, "processors:\n", "processors:\n"+udmProcessorYAML, 1)
+	f = strings.Replace(f, `    - from:
+        stream:
+          name: globalStream
+          at: start
+      to:
+        processor:
+          name: Lim
+`, `    - from:
+        stream:
+          name: globalStream
+          at: start
+      to:
+        processor:
+          name: Udm
+    - from:
+        processor:
+          name: Udm
+      to:
+        processor:
+          name: Lim
+`, 1)
+	return f
+}
+
+// queue flow: requests wait in a Queue processor for a slot of the quota
+const queueFlowYAML = `name: QF
+filter:
+    url: "box.com/*"
+processors:
+  Que:
+    processor: Queue
+    parameters:
+      - key: quota_id
+        value: Q
+      - key: queue_size
+        value: 1000
+      - key: ttl_seconds
+        value: 20
+  Gen:
+    processor: GenerateResponse
+    parameters:
+      - key: status
+        value: 429
+      - key: body
+        value: Too many requests
+      - key: Content-Type
+        value: text/plain
+flow:
+  request:
+    - from:
+        stream:
+          name: globalStream
+          at: start
+      to:
+        processor:
+          name: Que
+    - from:
+        processor:
+          name: Que
+          condition: blocked
+      to:
+        processor:
+          name: Gen
+    - from:
+        processor:
+          name: Que
+          condition: allowed
+      to:
+        stream:
+          name: globalStream
+          at: end
+  response:
+    - from:
+        processor:
+          name: Gen
+      to:
+        stream:
+          name: globalStream
+          at: end
+    - from:
+        stream:
+          name: globalStream
+          at: start
+      to:
+        stream:
+          name: globalStream
+          at: end
+`
+
+func quotaYAMLGrouped(max int) string {
+	return fmt.Sprintf(`quotas:
+  - id: Q
+    filter:
+      url: box.com/*
+    strategy:
+      fixed_window:
+        max: %d
+        interval: 1
+        interval_unit: hour
+        group_by_header: x-group
+`, max)
+}
+
 func quotaYAML(max int, concurrent bool) string {
 	if concurrent {
 		return fmt.Sprintf(`quotas:
@@ -129,10 +249,17 @@ type Scenario struct {
 	Metrics    bool `json:"concurrent_metrics_reader"`
 	Vacuum     bool `json:"vacuum_exercise"`
 	Concurrent bool `json:"concurrency_quota"` // quota strategy "concurrent" (in-flight bound) instead of a fixed window
+	Groups     int  `json:"quota_groups,omitempty"`       // fixed window grouped by a header: requests spread over this many groups
+	UDM        bool `json:"user_defined_gauge,omitempty"` // a UserDefinedMetrics gauge processor in front of the limiter
+	Queue      bool `json:"queue_flow,omitempty"`         // requests wait in a Queue processor for a slot of a concurrent quota (real clock)
+	// policy mode (policy.go): transactions through processRequest/processResponse of a policy-mode
+	// manager with a fixed-response and a caching remedy
+	Policy bool `json:"policy_mode,omitempty"`
 	// routing level (routing.go): transactions through processRequest/processResponse of a real
 	// HandlingDataManager while its admin handlers run
 	Routing   bool `json:"routing_level,omitempty"`
 	Reloads   int  `json:"admin_reloads,omitempty"`     // POST /load_flows this many times while transactions run
+	Conform   bool `json:"record_conformance_trace,omitempty"` // record the instrumented lock/access events (conform.go)
 	Validates int  `json:"admin_validations,omitempty"` // two goroutines POST /validate_flows this many times each
 }
 
@@ -160,18 +287,33 @@ func child() {
 		routingChild(sc, repo)
 		return
 	}
+	if sc.Policy {
+		policyChild(sc, repo)
+		return
+	}
 	wd, _ := os.Getwd()
 	flows, quotas, pp := filepath.Join(wd, "flows"), filepath.Join(wd, "quotas"), filepath.Join(wd, "path_params")
 	for _, d := range []string{flows, quotas, pp} {
 		os.MkdirAll(d, 0o755)
 	}
-	os.WriteFile(filepath.Join(flows, "rl.yaml"), []byte(flowYAML), 0o644)
-	os.WriteFile(filepath.Join(quotas, "q.yaml"), []byte(quotaYAML(sc.Max, sc.Concurrent)), 0o644)
+	switch {
+	case sc.Queue:
+		os.WriteFile(filepath.Join(flows, "qf.yaml"), []byte(queueFlowYAML), 0o644)
+	default:
+		os.WriteFile(filepath.Join(flows, "rl.yaml"), []byte(flowFor(sc.UDM)), 0o644)
+	}
+	if sc.Groups > 0 {
+		os.WriteFile(filepath.Join(quotas, "q.yaml"), []byte(quotaYAMLGrouped(sc.Max)), 0o644)
+	} else {
+		os.WriteFile(filepath.Join(quotas, "q.yaml"), []byte(quotaYAML(sc.Max, sc.Concurrent || sc.Queue)), 0o644)
+	}
 	environment.SetProcessorsDirectory(filepath.Join(repo, "proxy/src/services/lunar-engine/streams/processors/registry"))
 	environment.SetStreamsFlowsDirectory(flows)
 	environment.SetQuotasDirectory(quotas)
 	environment.SetPathParamsDirectory(pp)
-	context_manager.Get().SetMockClock() // frozen clock: one window for the whole run
+	if !sc.Queue {
+		context_manager.Get().SetMockClock() // frozen clock: one window for the whole run
+	} // (the queue processor polls every 100 ms of ITS clock: real time)
 
 	s, err := streams.NewStream()
 	if err != nil {
@@ -200,6 +342,15 @@ func child() {
 					_ = s.GetAvgFlowExecutionTime()
 					_ = s.GetAvgProcessorExecutionTime()
 					_ = s.GetRequestsThroughFlows()
+					// "quotas are being read for metrics": what the quota resource's metrics
+					// callback (observeQuotaUsed) does with every quota
+					if q, err := s.VerifC02Quota("Q"); err == nil {
+						if gc, ok := q.(interface{ GetQuotaGroupsCounters() map[string]int64 }); ok {
+							for g, n := range gc.GetQuotaGroupsCounters() {
+								sink += int64(len(g)) + n
+							}
+						}
+					}
 				}
 			}
 		}()
@@ -258,9 +409,14 @@ func child() {
 			time.Sleep(20 * time.Millisecond)
 		}()
 	}
+	var seq int64
 	doReq := func(id string) (admitted bool) {
+		hdr := map[string]string{}
+		if sc.Groups > 0 {
+			hdr["x-group"] = fmt.Sprintf("g%d", atomic.AddInt64(&seq, 1)%int64(sc.Groups))
+		}
 		req := lunar_messages.OnRequest{ID: id, SequenceID: id, Method: "GET", Scheme: "https",
-			URL: "box.com/files", Headers: map[string]string{}, Time: time.Now()}
+			URL: "box.com/files", Headers: hdr, Time: time.Now()}
 		as := stream_types.NewRequestAPIStream(req, shared)
 		acts := &stream_config.StreamActions{Request: &stream_config.RequestStream{}}
 		if err := s.ExecuteFlow(as, acts); err != nil {
@@ -285,7 +441,32 @@ func child() {
 			atomic.AddInt64(&res.Errors, 1)
 		}
 	}
-	if sc.Concurrent {
+	if sc.Queue {
+		// every goroutine sends its requests one after the other; an admitted request holds its
+		// slot of the concurrent quota until its response: never more than max in flight
+		var inFlight int64
+		for g := 0; g < sc.Goroutines; g++ {
+			wg.Add(1)
+			go func(g int) {
+				defer wg.Done()
+				for i := 0; i < sc.PerG; i++ {
+					id := fmt.Sprintf("t-%d-%d", g, i)
+					if doReq(id) {
+						n := atomic.AddInt64(&inFlight, 1)
+						for {
+							m := atomic.LoadInt64(&res.MaxInFlight)
+							if n <= m || atomic.CompareAndSwapInt64(&res.MaxInFlight, m, n) {
+								break
+							}
+						}
+						time.Sleep(2 * time.Millisecond)
+						atomic.AddInt64(&inFlight, -1)
+						doResp(id)
+					}
+				}
+			}(g)
+		}
+	} else if sc.Concurrent {
 		// rounds: all goroutines send their request at the same moment; nobody answers
 		// before the round is counted, so everything admitted in a round is in flight at once
 		for round := 0; round < sc.PerG; round++ {
@@ -467,6 +648,9 @@ func staticPairs(path string) map[string]string {
 	var f struct {
 		Sites   []factSite        `json:"sites"`
 		Multi   []string          `json:"multi_roles"`
+		Cons    []string          `json:"consumer_roles"`
+		PubOrd  []string          `json:"publication_order_violations"`
+		Gen     []string          `json:"generation_fields"`
 		Dropped map[string]bool   `json:"dropped_fields"`
 		Atomic  map[string]string `json:"atomic_report"`
 	}
@@ -477,7 +661,20 @@ func staticPairs(path string) map[string]string {
 	for _, m := range f.Multi {
 		multi[m] = true
 	}
-	quiet := func(r string) bool { return r == "init" || r == "load" || r == "unreached" }
+	// second discipline (theories/C18/Lockset.v racy_fields2, which is the judge): only "init" is
+	// quiet; a pair on a per-engine field with a "load" side against "load" or a consumer role is
+	// ordered by publication (Publication.v)
+	quiet := func(r string) bool { return r == "init" }
+	cons, gen := map[string]bool{}, map[string]bool{}
+	for _, r := range f.Cons {
+		cons[r] = true
+	}
+	for _, g := range f.Gen {
+		gen[g] = true
+	}
+	published := func(field, ra, rb string) bool {
+		return gen[field] && ((ra == "load" && (rb == "load" || cons[rb])) || (rb == "load" && cons[ra]))
+	}
 	kind := func(s factSite) int {
 		if s.Atomic {
 			return 2
@@ -499,6 +696,9 @@ func staticPairs(path string) map[string]string {
 		return false
 	}
 	out := map[string]string{}
+	for i, v := range f.PubOrd {
+		out[fmt.Sprintf("publication-order:%d", i)] = v
+	}
 	for fn, problem := range f.Atomic {
 		if problem != "" {
 			out["not-atomic:"+fn] = fn + " is modelled as one atomic step but " + problem
@@ -530,7 +730,7 @@ func staticPairs(path string) map[string]string {
 				}
 				for _, ra := range a.Roles {
 					for _, rb := range b.Roles {
-						if quiet(ra) || quiet(rb) || (ra == rb && !multi[ra]) {
+						if quiet(ra) || quiet(rb) || (ra == rb && !multi[ra]) || published(field, ra, rb) {
 							continue
 						}
 						if _, ok := out[field]; !ok {
@@ -612,8 +812,11 @@ func main() {
 	o := c.NewOut("C18")
 	o.Rule("each evaluation = one scenario run of the -race built engine in a child process " +
 		"(G goroutines x R request/response pairs through one Limiter flow with quota max K in a single window, " +
-		"optionally with a concurrent metrics reader, a concurrent engine load and the map vacuum); " +
-		"non-trivial = more transactions than quota slots and at least 2 goroutines")
+		"optionally with a concurrent metrics reader, a concurrent engine load, the map vacuum, a header-grouped " +
+		"window whose group counters are read for metrics, a user-defined gauge, a queue flow on a concurrent quota, " +
+		"policy-mode remedies, admin reloads / validations at routing level), or one schedule of overlapping " +
+		"executions of a real flow (txctx2); " +
+		"non-trivial = more transactions than quota slots and at least 2 goroutines / a schedule with overlapping executions")
 	repo := os.Getenv("VERIF_REPO")
 	if repo == "" {
 		repo = "/repo"
@@ -634,12 +837,35 @@ func main() {
 			// two concurrent /validate_flows (F-C18d)
 			{Goroutines: 6, PerG: 20, Max: 30, Routing: true, Reloads: 4},
 			{Goroutines: 2, PerG: 10, Max: 5, Routing: true, Validates: 6},
+			// conformance spot-check: the same with the instrumented events recorded (a run of its own:
+			// the recorder's lock would order the goroutines and hide races from the detector)
+			{Goroutines: 3, PerG: 8, Max: 100, Routing: true, Reloads: 2, Conform: true},
+			// audit 2026-09-29: the paths the enlarged translator found unprotected pairs on
+			// a fixed window grouped by a header, its group counters read "for metrics"     [F-C18j, F-C18l]
+			{Goroutines: 8, PerG: 25, Max: 4, Groups: 12, Metrics: true},
+			// a UserDefinedMetrics gauge in front of the limiter                             [F-C18k]
+			{Goroutines: 6, PerG: 20, Max: 30, UDM: true},
+			// policy mode: fixed-response and caching remedies                               [F-C18h, F-C18m]
+			{Goroutines: 6, PerG: 30, Policy: true},
+			// a queue flow on a concurrent quota (queue goroutine vs transactions)           [F-C18n]
+			{Goroutines: 6, PerG: 4, Max: 3, Queue: true},
 		}
 		for i := 0; i < o.Scale(1, 12, 6); i++ {
 			scenarios = append(scenarios, Scenario{Goroutines: o.Rng.Range(2, 12), PerG: o.Rng.Range(5, 40),
 				Max: o.Rng.Range(1, 60), Metrics: o.Rng.Bool(), Reload: o.Rng.Bool(), Vacuum: o.Rng.Bool()})
 			scenarios = append(scenarios, Scenario{Goroutines: o.Rng.Range(4, 12), PerG: o.Rng.Range(100, 500),
 				Max: o.Rng.Range(1, 3), Concurrent: true})
+			if i%3 == 0 {
+				scenarios = append(scenarios, Scenario{Goroutines: o.Rng.Range(4, 10), PerG: o.Rng.Range(10, 40),
+					Max: o.Rng.Range(1, 6), Groups: o.Rng.Range(2, 20), Metrics: true})
+				scenarios = append(scenarios, Scenario{Goroutines: o.Rng.Range(2, 8), PerG: o.Rng.Range(5, 30),
+					Max: o.Rng.Range(1, 40), UDM: true, Metrics: o.Rng.Bool()})
+				scenarios = append(scenarios, Scenario{Goroutines: o.Rng.Range(2, 8), PerG: o.Rng.Range(10, 40), Policy: true})
+			}
+			if i%4 == 1 {
+				scenarios = append(scenarios, Scenario{Goroutines: o.Rng.Range(2, 8), PerG: o.Rng.Range(2, 5),
+					Max: o.Rng.Range(1, 4), Queue: true})
+			}
 			if i%2 == 1 || o.Tier == "search" {
 				scenarios = append(scenarios, Scenario{Goroutines: o.Rng.Range(2, 8), PerG: o.Rng.Range(5, 30),
 					Max: o.Rng.Range(1, 40), Routing: true, Reloads: o.Rng.Range(0, 5), Validates: o.Rng.Range(0, 4)})
@@ -648,6 +874,7 @@ func main() {
 	}
 	// correspondence suite for the interference model: the real per-flow context manager
 	o.DeclareSuite("txctx", "From Verif Require Import C18.Model.", "case_txctx", "run_txctx")
+	o.DeclareSuite("conform", "From Verif Require Import C18.Conform.", "case_conform", "run_conform")
 	if o.Replay == "" {
 		for i := 0; i < o.Scale(300, 3000, 10); i++ {
 			cm := lunar_context.NewContextManager().WithFlowContext().WithTransactionalContext()
@@ -669,6 +896,9 @@ func main() {
 		}
 	}
 	if o.Replay == "" {
+		isolationSuite(o, repo)
+	}
+	if o.Replay == "" {
 		sp := staticPairs(filepath.Join(o.Dir, "facts.json"))
 		fields := make([]string, 0, len(sp))
 		for f := range sp {
@@ -677,7 +907,7 @@ func main() {
 		sort.Strings(fields)
 		for _, f := range fields {
 			sig := "race:" + f
-			if strings.HasPrefix(f, "not-atomic:") || strings.HasPrefix(f, "write-under-rlock:") {
+			if strings.HasPrefix(f, "not-atomic:") || strings.HasPrefix(f, "write-under-rlock:") || strings.HasPrefix(f, "publication-order:") {
 				sig = f
 			}
 			o.Count("static:" + sig)
@@ -699,7 +929,7 @@ func main() {
 			cmd := exec.Command(self)
 			cmd.Dir = wd
 			env := os.Environ()
-			if sc.Routing {
+			if sc.Routing || sc.Policy {
 				env = routingEnv(abs, repo) // fresh ports on every attempt
 			}
 			cmd.Env = append(env, "C18_CHILD=1", "C18_SCENARIO="+string(scj),
@@ -715,6 +945,9 @@ func main() {
 		for _, l := range strings.Split(string(outb), "\n") {
 			if strings.HasPrefix(l, "C18RESULT ") {
 				okRes = json.Unmarshal([]byte(l[10:]), &res) == nil
+			}
+			if strings.HasPrefix(l, "C18TRACE ") && o.Replay == "" {
+				conformCase(o, l[9:])
 			}
 		}
 		total := sc.Goroutines * sc.PerG
@@ -753,6 +986,39 @@ func main() {
 						want, hi, total, sc.Reloads),
 					Observed: fmt.Sprintf("admitted=%d refused=%d errors=%d admin_errors=%d reloads_done=%d; %s", res.Admitted, res.Refused, res.Errors,
 						res.AdminErrors, res.ReloadsDone, adminLine(string(outb))), Case: sc})
+			}
+		} else if sc.Policy {
+			// no remedy refuses anything (every URL is new to the cache): every one-at-a-time order
+			// admits every transaction
+			if res.Admitted != int64(total) || res.Errors != 0 {
+				o.Hit(c.Hit{Suite: "stress", Index: i, Signature: "not-serializable:policy-mode",
+					Demanded: fmt.Sprintf("all %d transactions pass the fixed-response and caching remedies, no errors", total),
+					Observed: fmt.Sprintf("admitted=%d refused=%d errors=%d", res.Admitted, res.Refused, res.Errors), Case: sc})
+			}
+		} else if sc.Queue {
+			// concurrent quota behind a queue: never more than max in flight, and (TTL 20 s) nobody is refused
+			if res.MaxInFlight > int64(sc.Max) || res.Errors != 0 || res.Admitted != int64(total) {
+				o.Hit(c.Hit{Suite: "stress", Index: i, Signature: "not-serializable:queue-flow",
+					Demanded: fmt.Sprintf("at most %d transactions in flight at any instant, all %d admitted within the queue TTL, no errors", sc.Max, total),
+					Observed: fmt.Sprintf("max in flight=%d admitted=%d refused=%d errors=%d", res.MaxInFlight, res.Admitted, res.Refused, res.Errors), Case: sc})
+			}
+		} else if sc.Groups > 0 {
+			// one window per group: in any one-at-a-time order group g admits min(requests of g, max)
+			cnt := make([]int64, sc.Groups)
+			for q := 1; q <= total; q++ {
+				cnt[q%sc.Groups]++
+			}
+			wantG := int64(0)
+			for _, n := range cnt {
+				if n > int64(sc.Max) {
+					n = int64(sc.Max)
+				}
+				wantG += n
+			}
+			if res.Admitted != wantG || res.Errors != 0 {
+				o.Hit(c.Hit{Suite: "stress", Index: i, Signature: "not-serializable:admitted-count",
+					Demanded: fmt.Sprintf("admitted = %d (sum over %d groups of min(requests, %d), as in every serial order), no errors", wantG, sc.Groups, sc.Max),
+					Observed: fmt.Sprintf("admitted=%d refused=%d errors=%d", res.Admitted, res.Refused, res.Errors), Case: sc})
 			}
 		} else if sc.Concurrent {
 			// in-flight bound: at no instant more than max admitted transactions hold a slot
